@@ -16,13 +16,17 @@ F_STALE = "C11-axi-stale-late-response"
 def jobs(tier):
     quick = tier == "quick"
     J = []
+    import time
     cap = 600 if quick else 40000
-    A = lambda mk, **kw: J.append(Job("A", mk, max_states=kw.pop("max_states", cap), **kw))
+    # per-instance wall-clock guard: a changed implementation that explodes the state space ends the exploration
+    # (recorded as not exhaustive) instead of running endlessly
+    dl = time.time() + (240 if quick else 2400)
+    A = lambda mk, **kw: J.append(Job("A", mk, max_states=kw.pop("max_states", cap), deadline=dl, **kw))
     B = lambda mk, **kw: J.append(Job("B", mk, cycles=kw.pop("cycles", 3000 if quick else 20000),
                                       runs=kw.pop("runs", 1 if quick else 2), **kw))
 
     # ---- WaitTimer, bus error counter
-    for t in (1, 2, 3, 5):
+    for t in (1, 2, 3, 4, 5, 7, 8, 2.7, 3.0):           # incl. powers of two (bits_for corner) and floats (int(t))
         A(lambda t=t: L.WaitTimerInst(t))
     A(lambda: L.BusErrInst(2 ** 32 - 4), max_states=64)
 
@@ -32,6 +36,16 @@ def jobs(tier):
         for (n, k) in ((1, 1), (2, 1), (1, 2), (2, 2)):
             A(lambda t=t, n=n, k=k: L.WbSharedInst(n, k, t, alphabet=L.wb_alphabet(n, k, 1)))
     A(lambda: L.WbSharedInst(1, 2, 2, reg=True, alphabet=L.wb_alphabet(1, 2, 1)))
+    # corners: float timeout as the SoC passes it, 3 masters, 3 slaves, masters with different adr widths (the shared
+    # bus is sized by `max`: master 1 cannot reach slot 2/3), timeout 4 and 8 (count register exactly full)
+    A(lambda: L.WbSharedInst(1, 1, 3.0, alphabet=L.wb_alphabet(1, 1, 1)))
+    A(lambda: L.WbSharedInst(3, 1, 2, alphabet=L.wb_alphabet(3, 1, 1, s_parts=[(0, 0, 0), (1, 0, 0xa5), (0, 1, 0x3c)])))
+    A(lambda: L.WbSharedInst(1, 3, 4, alphabet=L.wb_alphabet(1, 3, 1, s_parts=[(0, 0, 0), (1, 0, 0xa5), (0, 1, 0x3c)])))
+    A(lambda: L.WbSharedInst(2, 3, 2, m_aws=[3, 2], alphabet=L.wb_alphabet(
+        2, 3, 1, s_parts=[(0, 0, 0), (1, 0, 0xa5)],
+        m_parts=[[(0, 0, 0), (1, 0, 0)] + [(1, 1, sl << 1) for sl in range(4)],
+                 [(0, 0, 0), (0, 1, 0)] + [(1, 1, sl << 1) for sl in range(2)]])))
+    A(lambda: L.WbTimeoutInst(8))
     # wide buses: the forced read data must be all ones on the FULL dat_r width (64/128 bit)
     wide_s = lambda dw: [(0, 0, 0), (0, 0, 1 << (dw - 1)), (1, 0, (0xa5 << (dw - 8)) | 0x3c), (0, 1, 0)]
     A(lambda: L.WbTimeoutInst(2, dw=64, dats=(0, (0xa5 << 56) | 0x3c)))
@@ -111,6 +125,11 @@ def jobs(tier):
         B(lambda t=t: L.AxSharedInst(False, 2, 2, t, dw=32))
         B(lambda t=t: L.AxSharedInst(True, 2, 2, t, dw=32))
     B(lambda: L.WbSharedInst(3, 3, 16, dw=32, sh=4, reg=True))
+    B(lambda: L.WbSharedInst(5, 3, 7, dw=32, sh=4))
+    B(lambda: L.WbSharedInst(3, 2, 255, dw=16, sh=3, m_aws=[5, 4, 5]))
+    B(lambda: L.WbSharedInst(2, 2, "default", dw=32, sh=4), cycles=1500 if quick else 15000)   # omitted argument: 1e6
+    B(lambda: L.AxSharedInst(False, 3, 2, 7, dw=32, m_aws=[6, 5, 6]))
+    B(lambda: L.AxSharedInst(True, 2, 3, 16, dw=32, m_aws=[5, 6]))
     B(lambda: L.WbTimeoutInst(16, dw=64))
     B(lambda: L.WbSharedInst(2, 2, 16, dw=64, sh=4))
     B(lambda: L.WbSharedInst(2, 2, 100, dw=128, sh=4))
